@@ -33,9 +33,11 @@ on its plain-ndarray path) through `_build`, then update histories of length 1-5
 with float <-> complex switches; after every update `todense()`, `_prod(v,'fwd')`, `_prod(w,'rev')` and a masked
 `_prod` are compared with D (values and dtype kind).
 
-Recorded findings (mechanism keys `complex-switch:*`, see `_make_spec`): three ways in which the dictionary
-application / a scipy coo partial fail loudly after the switch to complex.  They are exercised in a small share of
-the cases only, so that the dtype-switch histories of all other cases stay judgeable.
+Recorded mechanisms (keys `complex-switch:*`, see `_make_spec` and KNOWN_SHARE): three ways in which the dictionary
+application / a scipy coo partial failed after the switch to complex.  The handling is adaptive: every system is
+always driven; only when one of these mechanisms actually fires (exact exception signature, or white-box confirmed
+stale views) it is reported in a KNOWN_SHARE of the cases and counted as `avoided:*` in the others.  On a tree where
+they are repaired nothing is avoided and the complex phase runs at full rate.
 """
 import random
 
@@ -75,6 +77,13 @@ SHARD_TIMEOUT = {'quick': 1200, 'thorough': 5400}
 OPTS = dict(p_index=0.75, p_units=0.5, p_chain2=0.3, p_param=0.4, p_matfree=0.0, p_sparse=0.75, p_cycle=0.4,
             p_implicit=0.4, p_scaling=0.2, solver_mix='any')
 RTOL = 1e-12
+# Share of the model cases in which one of the three recorded `complex-switch:*` mechanisms (chosen at random) is
+# REPORTED as a violation when it fires; in all other cases a firing mechanism only counts `avoided:*` and the
+# affected system is left out of the complex phase.  Nothing is decided from this constant about what is driven:
+# every system is always driven (and scipy-coo partials are combined with dtype switches whenever the probe
+# `_coo_switch_ok` passes), so once the defects are repaired the mechanisms are exercised at full rate, no
+# `avoided:*` counter appears and the constant has no effect.  1.0 = report in every case, 0.0 = never report.
+KNOWN_SHARE = 0.125
 FORMATS = ('dict', 'dense', 'csc', 'csr')
 
 
@@ -145,9 +154,9 @@ def _make_spec(seed):
     # Two recorded findings make a dtype switch fail loudly: a scipy coo_matrix partial (COOSubjac.set_dtype) and
     # the dictionary application of a rows/cols partial to complex vectors (np.bincount in OMCOOSubjac._apply_*).
     # A third one: a component's dictionary Jacobian keeps cached real views when an assembled ancestor switched
-    # the shared values first (`_dict_under_assembled`).  Each combination is kept in a small share of the cases
-    # only ('known_share'), so that the dtype-switch histories of all other cases stay judgeable.
-    cfg['known_share'] = crng.choice([None] * 21 + ['coo', 'rowcol', 'stale-views'])
+    # the shared values first (`_dict_under_assembled`).  While a mechanism still fires it is reported in a small
+    # share of the cases only (KNOWN_SHARE), so that the dtype-switch histories of all other cases stay judgeable.
+    cfg['known_share'] = crng.choice(['coo', 'rowcol', 'stale-views']) if crng.random() < KNOWN_SHARE else None
     if cfg['newton'] and cfg['known_share'] != 'coo' and not _coo_switch_ok():
         for ent in plan.values():
             for d in ent['pk'].values():
